@@ -1,4 +1,4 @@
-import HexProofs.Analysis.Final
+import HexProofs.Analysis.Invariance
 /-
 C17 – Movement, candle-shape and pattern predicates mean what they document.
 
@@ -17,9 +17,12 @@ Windows (all clamped at candle 0, `lo i n = max(i - n, 0)`):
   highestbar / lowestbar       the current candle and `n - 1` before: offsets `0 ≤ k < min(n, i+1)`
   cross / crossover / crossunder  steps `k-1 → k` for `lo i n < k ≤ i`
 
-NOT proved here (see `invariance_FULL`): invariance of the predicates under scaling by a positive
-factor and under shifts – it needs field laws for `PyF` (exact `sum`, distributivity), which the
-structural model deliberately does not assume.
+Scale / shift invariance of the patterns (`invariance`): over an exact linearly ordered field
+(`LawfulPyF` of HexProofs/Numeric – IEEE rounding is outside that theorem).
+Not covered: invariance of the MOVEMENT functions under a transformation of the named reading series
+(they read arbitrary indicator columns, not prices; nothing in the property text pins which columns
+would be transformed), and the "clear margin ≥ 2x" witnesses of the oracle, which are test inputs,
+not statements.
 -/
 namespace Hex.C17
 open Hex Hex.Ana
@@ -355,23 +358,37 @@ theorem gaps (c p : Candle F) :
     Pat.realbodyGapUp c p = (Num.max2 p.o p.c).lt (Num.min2 c.o c.c) ∧
     Pat.realbodyGapDown c p = (Num.max2 c.o c.c).lt (Num.min2 p.o p.c) := ⟨rfl, rfl⟩
 
-/-! ### the part that is not proved -/
+/-! ### scale and shift invariance (exact ordered field) -/
 
-/-- price transformation of a candle list (applied to open/high/low/close) -/
-def mapPrices (g : Num F → Num F) (cs : List (Candle F)) : List (Candle F) :=
-  cs.map fun c => { c with o := g c.o, h := g c.h, l := g c.l, c := g c.c }
+/-- **No pattern predicate changes when all prices are multiplied by a positive factor and shifted
+by a constant** (`mapPrices (aff k s)` replaces every open / high / low / close `x` by `x * k + s`),
+for every look-back and every index argument – over a carrier whose operations are those of a
+linearly ordered field (`LawfulPyF`, e.g. ℚ or ℝ: exact arithmetic, so CPython's compensated `sum` is
+the sum).  IEEE rounding is outside this theorem; there the oracle uses power-of-two factors and
+integer shifts on which the arithmetic is exact. -/
+theorem invariance {K : Type} [Field K] [LinearOrder K] [IsStrictOrderedRing K] [LawfulPyF K]
+    (cs : List (Candle K)) (lb index : Option Int) (k s : Num K) (hk : 0 < k.toF) :
+    Pat.doji (mapPrices (aff k s) cs) lb index = Pat.doji cs lb index ∧
+    Pat.dojistar (mapPrices (aff k s) cs) lb index = Pat.dojistar cs lb index ∧
+    Pat.hammer (mapPrices (aff k s) cs) lb index = Pat.hammer cs lb index ∧
+    Pat.invHammer (mapPrices (aff k s) cs) lb index = Pat.invHammer cs lb index :=
+  patterns_invariant cs lb index k s hk
 
-/-- FULL statement of the last clause of C17 (NOT proved): no pattern predicate changes when all
-prices are multiplied by a positive factor or shifted by a constant.  It needs `PyF` to be an
-ordered field with exact operations (so that `pySum` is the sum, `·` distributes over it and over
-`abs`, and comparisons are compatible with `+` and positive `·`); the structural model assumes no
-arithmetic law, so this clause is covered by the scaled / shifted witnesses of the oracle only. -/
-def invariance_FULL (F : Type) [PyF F] : Prop :=
-  ∀ (cs : List (Candle F)) (lb : Option Int) (i : Int) (k s : Num F), Num.lt (.int 0) k = true →
-    Pat.doji (mapPrices (fun x => (x.mul k).add s) cs) lb (some i) = Pat.doji cs lb (some i) ∧
-    Pat.dojistar (mapPrices (fun x => (x.mul k).add s) cs) lb (some i) = Pat.dojistar cs lb (some i) ∧
-    Pat.hammer (mapPrices (fun x => (x.mul k).add s) cs) lb (some i) = Pat.hammer cs lb (some i) ∧
-    Pat.invHammer (mapPrices (fun x => (x.mul k).add s) cs) lb (some i) = Pat.invHammer cs lb (some i)
+/-- … and neither do `positive` / `negative`. -/
+theorem invariance_sign {K : Type} [Field K] [LinearOrder K] [IsStrictOrderedRing K] [LawfulPyF K]
+    (cs : List (Candle K)) (i : Int) (k s : Num K) (hk : 0 < k.toF) :
+    Mov.positive (mapPrices (aff k s) cs) i = Mov.positive cs i ∧
+    Mov.negative (mapPrices (aff k s) cs) i = Mov.negative cs i :=
+  positive_negative_invariant cs i k s hk
+
+/-- the transformation -/
+theorem mapPrices_def {F : Type} [PyF F] (k s : Num F) (c : Candle F) :
+    mapC (aff k s) c = { c with o := (c.o.mul k).add s, h := (c.h.mul k).add s,
+                                l := (c.l.mul k).add s, c := (c.c.mul k).add s } := rfl
+
+/-- every lawful ordered field satisfies the order and `abs` laws used above; ℚ is one -/
+example : OrdLaws ℚ ∧ AbsLaws ℚ := ⟨inferInstance, inferInstance⟩
+example : (0 : ℚ) < (Num.int 2 : Num ℚ).toF := by rw [Num.toF_int]; norm_num
 
 /-! ### non-vacuity -/
 
@@ -416,5 +433,12 @@ example : isB false (Mov.crossunder demo "x" "y" 1 5) = true := by decide
 example : isB true (Mov.cross demo "x" "y" 1 5) = true := by decide
 -- a well-formed candle
 example : WellFormed (mk 6 9 5 5 []) := ⟨by decide, by decide, by decide⟩
+-- patterns: ten flat candles, a long rising candle, then a doji that gaps up – a doji star at candle 11
+-- (every clause holds), none at candle 10 (its body is not doji-sized), and none before candle 10
+def demoP : List (Candle Int) :=
+  List.replicate 10 (mk 10 11 9 10 []) ++ [mk 10 21 9 20 [], mk 25 26 24 25 []]
+example : dojistarRef demoP 11 = true ∧ dojistarRef demoP 10 = false := by decide
+example : isB true (Pat.dojistar demoP none (some 11)) = true ∧ isB false (Pat.dojistar demoP none (some 10)) = true ∧
+    isB true (Pat.dojistar demoP (some 3) (some 11)) = true := by decide
 
 end Hex.C17
